@@ -10,7 +10,9 @@
 //@assume std: `it.position(|(k, _)| *k == key)` / `.find(..)` / `.any(..)` / `iter_mut().find(..)` locate the FIRST pair whose name equals the key (key_index); String equality is equality of the character sequences
 //@assume std: `sort_by_key` is a stable sort: the result holds exactly the same pairs (a permutation), so names stay distinct and every name keeps its value (sorted_by_priority); the ORDER it establishes is not specified here
 //@assume R-find-mut: `if let Some((_, v)) = self.attrs.iter_mut().find(|(k, _)| *k == key) { *v = value; }` is `if let Some(p) = key_index(..) { set_value(&mut self.attrs, p, value); }` (closures capturing by `&mut` pattern are not translated); R-into: `impl Into<String>` arguments are taken as `String` (the conversions of &str / &String / String are the identity on the character sequence)
+//@assume SvgElement::new: R-tostring (`x.to_string()` on a `&String` / `&str` is a copy of the character sequence); R-abstract: the inner `for c in value.split(' ') { classes.insert(c.to_string()); }` is add_split_classes() (string tokenizer, opaque: it only touches the class list); R-fmt: the `original` text is an arbitrary string; AttrMap::clone returns an equal value
 use vstd::prelude::*;
+//@prelude fmt_macro
 verus! {
 //@prelude std_specs vecstr
 
@@ -74,7 +76,7 @@ pub proof fn lemma_same_pairs_same_map(a: Seq<(String, String)>, b: Seq<(String,
 {
     lemma_as_map(a);
     lemma_as_map(b);
-    assert forall|k: Seq<char>| as_map(a).dom().contains(k) implies as_map(b).dom().contains(k) && as_map(a)[k] == as_map(b)[k] by {
+    assert forall|k: Seq<char>| #![trigger as_map(a).dom().contains(k)] as_map(a).dom().contains(k) implies as_map(b).dom().contains(k) && as_map(a)[k] == as_map(b)[k] by {
         let i = idx_of(a, k); assert(key_at(a, i, k));
         assert(pair_in(b, a[i].0@, a[i].1@));
         let j = choose|j: int| pair_at(b, j, a[i].0@, a[i].1@);
@@ -82,7 +84,7 @@ pub proof fn lemma_same_pairs_same_map(a: Seq<(String, String)>, b: Seq<(String,
         assert(as_map(b)[b[j].0@] == b[j].1@);
         assert(as_map(a)[a[i].0@] == a[i].1@);
     }
-    assert forall|k: Seq<char>| as_map(b).dom().contains(k) implies as_map(a).dom().contains(k) by {
+    assert forall|k: Seq<char>| #![trigger as_map(b).dom().contains(k)] as_map(b).dom().contains(k) implies as_map(a).dom().contains(k) by {
         let j = idx_of(b, k); assert(key_at(b, j, k));
         assert(pair_in(a, b[j].0@, b[j].1@));
         let i = choose|i: int| pair_at(a, i, b[j].0@, b[j].1@);
@@ -114,16 +116,18 @@ pub proof fn lemma_insert_view(a: Seq<(String, String)>, b: Seq<(String, String)
     }
     lemma_as_map(b);
     let m = as_map(a).insert(k, v);
-    assert forall|x: Seq<char>| as_map(b).dom().contains(x) implies m.dom().contains(x) && as_map(b)[x] == m[x] by {
+    assert forall|x: Seq<char>| #![trigger as_map(b).dom().contains(x)] as_map(b).dom().contains(x) implies m.dom().contains(x) && as_map(b)[x] == m[x] by {
         let i = idx_of(b, x); assert(key_at(b, i, x));
         assert(as_map(b)[b[i].0@] == b[i].1@);
         if x != k { assert(i != p); assert(i < a.len()); assert(b[i] == a[i]); assert(as_map(a)[a[i].0@] == a[i].1@); }
         else { if i < p { assert(b[i].0@ != b[p].0@); } else if p < i { assert(b[p].0@ != b[i].0@); } }
     }
-    assert forall|x: Seq<char>| m.dom().contains(x) implies as_map(b).dom().contains(x) by {
+    assert forall|x: Seq<char>| #![trigger m.dom().contains(x)] m.dom().contains(x) implies as_map(b).dom().contains(x) by {
         if x == k { assert(as_map(b).dom().contains(b[p].0@)); }
         else { let i = idx_of(a, x); assert(key_at(a, i, x)); assert(i != p); assert(b[i] == a[i]); assert(as_map(b).dom().contains(b[i].0@)); }
     }
+    assert(as_map(b).dom() =~= m.dom());
+    assert(as_map(b) =~= m);
 }
 pub proof fn lemma_remove_view(a: Seq<(String, String)>, p: int)
     requires keys_distinct(a), 0 <= p < a.len(),
@@ -140,7 +144,7 @@ pub proof fn lemma_remove_view(a: Seq<(String, String)>, p: int)
     lemma_as_map(b);
     let k = a[p].0@;
     let m = as_map(a).remove(k);
-    assert forall|x: Seq<char>| as_map(b).dom().contains(x) implies m.dom().contains(x) && as_map(b)[x] == m[x] by {
+    assert forall|x: Seq<char>| #![trigger as_map(b).dom().contains(x)] as_map(b).dom().contains(x) implies m.dom().contains(x) && as_map(b)[x] == m[x] by {
         let i = idx_of(b, x); assert(key_at(b, i, x));
         let i2 = if i < p { i } else { i + 1 };
         assert(b[i] == a[i2]);
@@ -148,7 +152,7 @@ pub proof fn lemma_remove_view(a: Seq<(String, String)>, p: int)
         assert(as_map(b)[b[i].0@] == b[i].1@);
         assert(as_map(a)[a[i2].0@] == a[i2].1@);
     }
-    assert forall|x: Seq<char>| m.dom().contains(x) implies as_map(b).dom().contains(x) by {
+    assert forall|x: Seq<char>| #![trigger m.dom().contains(x)] m.dom().contains(x) implies as_map(b).dom().contains(x) by {
         let i = idx_of(a, x); assert(key_at(a, i, x)); assert(i != p);
         let i1 = if i < p { i } else { i - 1 };
         assert(b[i1] == a[i]);
@@ -309,5 +313,70 @@ impl AttrMap {
 //@end
 }
 
+
+// ------------------------------------------------------------------------------ SvgElement::new: where every element's attribute map is born
+#[verifier::external_body] pub struct ClassList { _p: u8 }
+#[verifier::external_body] pub struct OrderIndex { _p: u8 }
+#[verifier::external_body] pub struct BoundingBox { _p: u8 }
+impl ClassList { #[verifier::external_body] pub fn new() -> ClassList { unimplemented!() } }
+impl OrderIndex { #[verifier::external_body] pub fn default() -> OrderIndex { unimplemented!() } }
+impl Clone for AttrMap { #[verifier::external_body] fn clone(&self) -> (r: Self) ensures r == *self { unimplemented!() } }
+/// R-abstract: `for c in value.split(' ') { classes.insert(c.to_string()); }`
+#[verifier::external_body]
+pub fn add_split_classes(classes: &mut ClassList, value: &String) { unimplemented!() }
+/// R-tostring
+#[verifier::external_body]
+pub fn str_to_string(s: &str) -> (r: String) ensures r@ == s@ { unimplemented!() }
+
+//@item src/element.rs :: struct SvgElement
+//@end
+
+/// the pairs of the input that are attributes (everything but `class`)
+pub open spec fn attr_pair(s: Seq<(String, String)>, i: int) -> bool { 0 <= i < s.len() && s[i].0@ != "class"@ }
+pub proof fn lemma_take_step(s: Seq<(String, String)>, n: int)
+    requires 0 <= n < s.len(),
+    ensures forall|k: Seq<char>| #[trigger] has_key(s.take(n + 1), k) <==> (has_key(s.take(n), k) || s[n].0@ == k),
+{
+    let a = s.take(n); let b = s.take(n + 1);
+    assert forall|k: Seq<char>| #[trigger] has_key(b, k) <==> (has_key(a, k) || s[n].0@ == k) by {
+        if has_key(b, k) { let i = choose|i: int| key_at(b, i, k); assert(key_at(b, i, k)); if i < n { assert(a[i] == b[i]); assert(key_at(a, i, k)); } }
+        if has_key(a, k) { let i = choose|i: int| key_at(a, i, k); assert(key_at(a, i, k)); assert(a[i] == b[i]); assert(key_at(b, i, k)); }
+        if s[n].0@ == k { assert(b[n] == s[n]); assert(key_at(b, n, k)); }
+    }
+}
+/// no later pair of the input carries the same name (the LAST occurrence of a name decides its value: insert-or-update)
+pub open spec fn last_of_its_name(s: Seq<(String, String)>, i: int) -> bool { forall|j: int| i < j < s.len() ==> (#[trigger] s[j]).0@ != s[i].0@ }
+
+impl SvgElement {
+//@rewrite strlit
+//@item src/element.rs :: impl SvgElement :: fn new
+//@ strlit "class"
+//@ replace[R-strcmp] <<<if key == "class" {>>> => <<<if str_eq_lit(key, "class") {>>>
+//@ cut[R-abstract] <<<                for c in value.split(' ') {>>> .. <<<                    classes.insert(c.to_string());\n                }>>> => <<<                add_split_classes(&mut classes, value);>>>
+//@ replace[R-tostring] <<<attr_map.insert(key.to_string(), value.to_string());>>> => <<<attr_map.insert(key.clone(), value.clone());>>>
+//@ replace[R-tostring] <<<name: name.to_string(),>>> => <<<name: str_to_string(name),>>>
+//@ ensures
+//@ - r.attrs.wf()     @@C02.attrmap.element_names_distinct @@C05.attrmap.element_names_distinct
+//@ - !r.attrs@.dom().contains("class"@)     @@C02.class.never_an_attribute @@C05.class.never_an_attribute
+//@ - forall|k: Seq<char>| #[trigger] r.attrs@.dom().contains(k) <==> (k != "class"@ && has_key(attrs@, k))     @@C02.attrmap.element_has_exactly_the_given_names
+//@ - forall|i: int| attr_pair(attrs@, i) && last_of_its_name(attrs@, i) ==> r.attrs@[(#[trigger] attrs@[i]).0@] == attrs@[i].1@     @@C02.attrmap.element_values_as_given
+//@ - r.name@ == name@
+//@ before <<<        Self {>>>
+//@ | proof { assert(attrs@.take(attrs@.len() as int) =~= attrs@); }
+//@ loop 1
+//@ iter it
+//@ body-start
+//@ | proof { lemma_take_step(attrs@, it.index@ as int); assert(attrs@.take(0).len() == 0); }
+//@ invariant
+//@ - attr_map.wf()     @@C02.attrmap.element_names_distinct
+//@ - !attr_map@.dom().contains("class"@)     @@C02.class.never_an_attribute
+//@ - forall|k: Seq<char>| #[trigger] attr_map@.dom().contains(k) <==> (k != "class"@ && has_key(attrs@.take(it.index@ as int), k))     @@C02.attrmap.element_has_exactly_the_given_names
+//@ - forall|i: int| 0 <= i < it.index@ && attrs@[i].0@ != "class"@ && (forall|j: int| i < j < it.index@ ==> (#[trigger] attrs@[j]).0@ != attrs@[i].0@) ==> attr_map@[(#[trigger] attrs@[i]).0@] == attrs@[i].1@     @@C02.attrmap.element_values_as_given
+//@end
+//@rewrite -strlit
+}
+/// `key == "class"` with `key: &String` (String / str equality is equality of the character sequences)
+#[verifier::external_body]
+pub fn str_eq_lit(a: &String, b: &str) -> (r: bool) ensures r == (a@ == b@) { unimplemented!() }
 } // verus!
 fn main() {}
